@@ -958,15 +958,33 @@ def _h_or_p_or_p_with_selection_to_result_iterable(
     elif isinstance(source, P):
         return (
             (PResult(p=source, roll=roll), count)
-            for roll, count in source.rolls_with_counts()
+            for roll, count in _aggregate_rolls(source.rolls_with_counts())
         )
     elif isinstance(source, PWithSelection):
         return (
             (PResult(p=source.p, roll=roll), count)
-            for roll, count in source.p.rolls_with_counts(*source.which)
+            for roll, count in _aggregate_rolls(
+                source.p.rolls_with_counts(*source.which)
+            )
         )
     else:
         raise TypeError(f"unrecognized source type {source}")
+
+
+def _aggregate_rolls(
+    rolls_with_counts: Iterable[Tuple[RollT, int]],
+) -> Iterable[Tuple[RollT, int]]:
+    r"""
+    ``#!python P.rolls_with_counts`` may yield the same roll more than once (e.g., with
+    heterogeneous pools or selections). Each distinct roll is one branch of an
+    evaluation (with one probability), so we combine their counts.
+    """
+    counts_by_roll: dict[RollT, int] = {}
+
+    for roll, count in rolls_with_counts:
+        counts_by_roll[roll] = counts_by_roll.get(roll, 0) + count
+
+    return counts_by_roll.items()
 
 
 @beartype
